@@ -24,6 +24,7 @@ pub const ALL: &[(&str, Scenario)] = &[
     ("mt-life", mt::mt_life),
     ("mt-wake", mt::mt_wake),
     ("mt-pool", mt::mt_pool),
+    ("mt-teardown", mt::mt_teardown),
 ];
 
 pub fn find(name: &str) -> Option<Scenario> {
